@@ -760,3 +760,268 @@ def compare(ctx, cases, impl, model_lines):
     }
     return {"corr_mismatch": corr, "oracle_fail": orc, "hist": hist, "nontrivial": nontriv,
             "samples": [cases[0], cases[len(cases) // 2], cases[-1]], "extra": extra}
+
+
+# ---- link/net types (extend-c08a) ----
+# Types that now have a Coq model + theorems; value ("v") cases with a canonical
+# value string; EXPECT_REJECT: constructible values that the decoder must reject
+# (excluded by the wf predicate of the theorem, see C08_Macsec_excluded_rejected).
+EXPECT_REJECT = {}
+
+
+def _num(x, top):
+    return x != "-" and x.isdigit() and int(x) <= top
+
+
+def _macsec_canon_from_case(a):
+    p, et, es, scb, an, sl, pn, sci = a[:8]
+    if p not in ("0", "1", "2", "3") or es not in "01" or scb not in "01":
+        return None
+    if (p == "0") != (et != "-") or (p == "0" and not _num(et, 65535)):
+        return None
+    if not _num(an, 3) or not _num(sl, 63) or not _num(pn, 0xFFFFFFFF) or (sci != "-" and not _num(sci, (1 << 64) - 1)):
+        return None
+    return ",".join(a[:8])
+
+
+CANON_FROM_CASE["macsec"] = _macsec_canon_from_case
+EXPECT_REJECT["macsec"] = lambda a: a[0] == "0" and a[5] == "1"
+PROVED += ["macsec"]
+
+
+def gen_macsec_values(rng, count):
+    out = []
+    for p in range(4):
+        for has_sci in (0, 1):
+            for an in range(4):
+                for fl in range(4):
+                    for sl in range(64):
+                        out.append("v macsec %d %s %d %d %d %d %d %s %s" % (
+                            p, str(_edge(rng, 16)) if p == 0 else "-", fl & 1, fl >> 1, an, sl, _edge(rng, 32),
+                            str(_edge(rng, 64)) if has_sci else "-", hx(rng.bytes(rng.below(4)))))
+    for _ in range(count):
+        p = rng.below(4)
+        out.append("v macsec %d %s %d %d %d %d %d %s %s" % (
+            p, str(_edge(rng, 16)) if p == 0 else "-", rng.below(2), rng.below(2), rng.below(4), rng.below(64),
+            _edge(rng, 32), str(_edge(rng, 64)) if rng.chance(1, 2) else "-", hx(rng.bytes(rng.below(20)))))
+    # out of range for the newtypes: must not be constructible
+    out += ["v macsec 0 65536 0 0 0 0 0 - -", "v macsec 1 - 0 0 4 0 0 - -", "v macsec 2 - 0 0 0 64 0 - -",
+            "v macsec 3 - 0 0 0 0 4294967296 - -", "v macsec 3 - 0 0 0 0 0 18446744073709551616 -"]
+    return out
+
+
+def _auth_canon_from_case(a):
+    nh, spi, sq, icv, stale = a[:5]
+    if not _num(nh, 255) or not _num(spi, 0xFFFFFFFF) or not _num(sq, 0xFFFFFFFF):
+        return None
+    for x in (icv,) if stale == "-" else (icv, stale):
+        n = len(_unhex(x))
+        if n > 1016 or n % 4:
+            return None
+    return "%s,%s,%s,%s" % (nh, spi, sq, icv)
+
+
+def _rawext_canon_from_case(a):
+    nh, pl, stale = a[:3]
+    if not _num(nh, 255):
+        return None
+    for x in (pl,) if stale == "-" else (pl, stale):
+        n = len(_unhex(x))
+        if n < 6 or n > 2046 or (n + 2) % 8:
+            return None
+    return "%s,%s" % (nh, pl)
+
+
+def _ipv6_canon_from_case(a):
+    tc, fl, pl, nh, hop, src, dst = a[:7]
+    if not (_num(tc, 255) and _num(fl, 0xFFFFF) and _num(pl, 65535) and _num(nh, 255) and _num(hop, 255)):
+        return None
+    if len(_unhex(src)) != 16 or len(_unhex(dst)) != 16:
+        return None
+    return ",".join(a[:7])
+
+
+CANON_FROM_CASE["auth"] = _auth_canon_from_case
+CANON_FROM_CASE["rawext"] = _rawext_canon_from_case
+CANON_FROM_CASE["ipv6"] = _ipv6_canon_from_case
+PROVED += ["auth", "rawext", "ipv6"]
+
+
+def gen_auth_values(rng, count):
+    out = []
+    # every ICV length 0, 4, .., 1016; every second one with stale bytes behind the ICV (set_raw_icv)
+    for k in range(0, 255):
+        stale = "-"
+        if k % 2 and k < 254:
+            stale = hx(_blob(rng, 4 * rng.range(k + 1, 254)) or b"")
+        out.append("v auth %d %d %d %s %s %s" % (_edge(rng, 8), _edge(rng, 32), _edge(rng, 32), hx(_blob(rng, 4 * k)),
+                                                 stale, hx(rng.bytes(rng.below(5)))))
+    for n in (1, 2, 3, 5, 1015, 1017, 1018, 1019, 1020, 2000):      # unaligned / too big
+        out.append("v auth 6 1 2 %s - -" % hx(rng.bytes(n)))
+    out += ["v auth 256 0 0 - - -", "v auth 0 4294967296 0 - - -", "v auth 0 0 4294967296 - - -",
+            "v auth 6 1 2 01020304 0102030405 -"]
+    for _ in range(count):
+        k = rng.below(12) if rng.chance(3, 4) else rng.below(255)
+        stale = hx(rng.bytes(4 * rng.below(255))) if rng.chance(1, 3) else "-"
+        out.append("v auth %d %d %d %s %s %s" % (_edge(rng, 8), _edge(rng, 32), _edge(rng, 32), hx(_blob(rng, 4 * k)),
+                                                 stale, hx(rng.bytes(rng.below(9)))))
+    return out
+
+
+def gen_rawext_values(rng, count):
+    out = []
+    for k in range(0, 256):                  # every payload length 6, 14, .., 2046
+        stale = "-"
+        if k % 2 and k < 255:
+            stale = hx(_blob(rng, 6 + 8 * rng.range(k + 1, 255)))
+        out.append("v rawext %d %s %s %s" % (_edge(rng, 8), hx(_blob(rng, 6 + 8 * k)), stale,
+                                             hx(rng.bytes(rng.below(5)))))
+    for n in (0, 1, 5, 7, 8, 13, 15, 2045, 2047, 2054, 3000):        # too small / unaligned / too big
+        out.append("v rawext 0 %s - -" % hx(rng.bytes(n)))
+    out += ["v rawext 256 010203040506 - -", "v rawext 0 010203040506 0102030405 -"]
+    for _ in range(count):
+        k = rng.below(6) if rng.chance(3, 4) else rng.below(256)
+        stale = hx(rng.bytes(6 + 8 * rng.below(256))) if rng.chance(1, 3) else "-"
+        out.append("v rawext %d %s %s %s" % (_edge(rng, 8), hx(_blob(rng, 6 + 8 * k)), stale,
+                                             hx(rng.bytes(rng.below(9)))))
+    return out
+
+
+def gen_ipv6_values(rng, count):
+    out = []
+    for tc in range(256):                    # every traffic class, flow label edges (nibble shared with byte 1)
+        for fl in (0, 0xFFFFF, 0xF0000, 0x0FFFF, _edge(rng, 20)):
+            out.append("v ipv6 %d %d %d %d %d %s %s %s" % (tc, fl, _edge(rng, 16), _edge(rng, 8), _edge(rng, 8),
+                                                           hx(_blob(rng, 16)), hx(_blob(rng, 16)),
+                                                           hx(rng.bytes(rng.below(4)))))
+    out += ["v ipv6 256 0 0 0 0 %s %s -" % ("00" * 16, "00" * 16), "v ipv6 0 1048576 0 0 0 %s %s -" % ("00" * 16, "00" * 16),
+            "v ipv6 0 0 65536 0 0 %s %s -" % ("00" * 16, "00" * 16), "v ipv6 0 0 0 0 0 %s %s -" % ("00" * 15, "00" * 16),
+            "v ipv6 0 0 0 0 0 %s %s -" % ("00" * 16, "00" * 17)]
+    for _ in range(count):
+        out.append("v ipv6 %d %d %d %d %d %s %s %s" % (_edge(rng, 8), _edge(rng, 20), _edge(rng, 16), _edge(rng, 8),
+                                                       _edge(rng, 8), hx(_blob(rng, 16)), hx(_blob(rng, 16)),
+                                                       hx(rng.bytes(rng.below(9)))))
+    return out
+
+
+def gen_linknet(rng, tier):
+    k = 8 if tier == "thorough" else 1
+    cases = []
+    cases += gen_macsec_values(rng, 500 * k)
+    cases += gen_auth_values(rng, 300 * k)
+    cases += gen_rawext_values(rng, 300 * k)
+    cases += gen_ipv6_values(rng, 500 * k)
+    return cases
+
+
+_corpus_base_c08a = corpus
+
+
+def corpus():
+    return _corpus_base_c08a() + [
+        "v macsec 0 65535 1 1 3 63 4294967295 18446744073709551615 -",
+        "v macsec 2 - 0 0 0 1 1 - 0102",
+        "v macsec 0 2048 0 0 0 1 7 - -",                 # excluded value: Unmodified + short_len 1
+        "b macsec 2cc5000000090102030405060708aa",       # reserved bits of the short length octet set
+        "b macsec 000100000007" + "0800",                # InvalidUnmodifiedShortLen
+        "v auth 255 4294967295 4294967295 " + "ff" * 1016 + " - -",
+        "v auth 6 1 2 01020304 " + "aa" * 16 + " 09",    # stale bytes behind the ICV
+        "b auth 0602abcd000000010000000201020304" + "09",  # reserved bytes 2-3 set
+        "v rawext 255 " + "ff" * 2046 + " - -",
+        "v rawext 43 010203040506 " + "aa" * 14 + " 09",
+        "v ipv6 255 1048575 65535 255 255 " + "ff" * 16 + " " + "ff" * 16 + " -",
+        "v ipv6 165 74565 8 17 64 " + "01" * 16 + " " + "02" * 16 + " 09",
+    ]
+
+
+_gen_cases_base_c08a = gen_cases
+
+
+def gen_cases(rng, tier):
+    return _gen_cases_base_c08a(rng, tier) + gen_linknet(rng, tier)
+
+
+_oracle_base_c08a = _oracle
+
+
+def _oracle(parts, il):
+    kind, t = parts[0], parts[1]
+    if kind == "v" and t in EXPECT_REJECT and CANON_FROM_CASE[t](parts[2:]) is not None and EXPECT_REJECT[t](parts[2:]):
+        if il.startswith("PANIC") or il.startswith("CRASH") or il.startswith("NOT-RUN"):
+            return il[:200]
+        f = _kv(il)
+        want = CANON_FROM_CASE[t](parts[2:])
+        if f.get("v") != want:
+            return "constructed value %s is not the requested %s" % (f.get("v"), want)
+        if f["w"] != f["tb"] or len(_unhex(f["tb"])) != int(f["hl"]):
+            return "serialisers disagree on an excluded value"
+        if f["d"] != "err" or f["rd"] not in ("err", "-"):
+            return "excluded value (wf predicate false) was accepted by a decoder: d=%s rd=%s" % (f["d"], f["rd"])
+        return None
+    return _oracle_base_c08a(parts, il)
+# ---- end extend-c08a ----
+
+
+# ---- transport/control types (extend-c08b) ----
+# udp, icmp4, (icmp6, igmp, grec, prefix) now have a Coq model + theorems
+# (Roundtrip/PropsTransport.v).  Their byte-string cases are compared byte-exactly with
+# the model (re-encoded bytes, verdicts of from_slice/read, consumed length); the Rust
+# harness prints `=` for an equal value (crate PartialEq), the model runner likewise.
+PROVED_C08B = ["udp", "icmp4"]
+PROVED += PROVED_C08B
+MASKS["udp"] = lambda c: _ones(len(c))            # no reserved bits in a UDP header
+
+
+def gen_transport(rng, tier):
+    k = 8 if tier == "thorough" else 1
+    out = []
+    # udp: extremes of each field, every length around 8
+    for n in range(0, 12):
+        for fill in (b"\x00", b"\xff"):
+            out.append("b udp " + hx(fill * n))
+    for pos in range(8):
+        for b in (0, 1, 0x7F, 0x80, 0xFE, 0xFF):
+            d = bytearray(rng.bytes(8 + rng.below(3)))
+            d[pos] = b
+            out.append("b udp " + hx(bytes(d)))
+    # icmp4 timestamp / timestamp reply: from_slice wants exactly 20 bytes, read takes 20 of more
+    for ty in (13, 14):
+        for code in (0, 0, 0, 1):
+            for n in (8, 19, 20, 20, 20, 21, 24):
+                for _ in range(4 * k):
+                    d = bytearray(_blob(rng, n))
+                    d[0] = ty
+                    d[1] = code
+                    out.append("b icmp4 " + hx(bytes(d)))
+    # icmp4: every (type, code) of the typed variants and their neighbours with all-ones / all-zero rest
+    for ty in (0, 3, 4, 5, 8, 11, 12, 13, 14, 15):
+        for code in range(0, 18):
+            for fill in (b"\x00", b"\xff"):
+                d = bytearray(fill * 10)
+                d[0] = ty
+                d[1] = code
+                out.append("b icmp4 " + hx(bytes(d)))
+    return out
+
+
+_corpus_base_c08b = corpus
+
+
+def corpus():
+    return _corpus_base_c08b() + [
+        "b udp 0102003500080000" + "09",
+        "b udp " + "ff" * 8,
+        "b icmp4 0304ffffaabb05dc09",                    # fragmentation needed: unused bytes 4-5 are dropped
+        "b icmp4 0d00" + "ab" * 18,                      # timestamp, exactly 20 bytes
+        "b icmp4 0d00" + "ab" * 19,                      # timestamp + 1 byte: from_slice rejects, read accepts
+        "b icmp4 0c01ffff11223344",                      # parameter problem code 1: pointer byte dropped
+        "b icmp4 0310000001020304",                      # type 3 code 16: raw
+    ]
+
+
+_gen_cases_base_c08b = gen_cases
+
+
+def gen_cases(rng, tier):
+    return _gen_cases_base_c08b(rng, tier) + gen_transport(rng, tier)
+# ---- end extend-c08b ----
